@@ -28,6 +28,7 @@ type Profile struct {
 	MaxRevisions int
 	Weights      map[string]int
 	Sliced       bool // objects are referenced through ObjectSlices
+	SliceSeed    int64
 	// CPs to draw collision protection values from ("" = unset)
 	CPs []string
 	// FinalQuiesce: run fair rounds at the end
@@ -61,6 +62,7 @@ type Rand struct {
 	Pool     []ident
 	Sets     []string // names of created sets in creation order
 	revCount int
+	sliceR   *rand.Rand
 }
 
 func (g *Rand) pick(n int) int { return g.R.Intn(n) }
@@ -178,6 +180,9 @@ func (g *Rand) newRevision() {
 	probes := []corev1alpha1.ObjectSetProbe{AvailableProbe(GVKDeployment), AvailableProbe(GVKWidget)}
 	if g.P.Sliced {
 		g.slice(name, ps)
+	} else if g.sliceR != nil {
+		// keep the slicing PRNG in step with a sliced twin run
+		g.slice(name, nil)
 	}
 	if err := g.E.Create("user", false, NewObjectSet(g.SetNS, name, ps, probes, previous...)); err != nil {
 		panic(err)
@@ -200,12 +205,18 @@ func (g *Rand) manifest(id ident, ns, content string) *unstructured.Unstructured
 
 // slice moves the objects of every local phase into an ObjectSlice.
 func (g *Rand) slice(setName string, phases []corev1alpha1.ObjectSetTemplatePhase) {
+	if g.sliceR == nil {
+		g.sliceR = rand.New(rand.NewSource(g.P.SliceSeed + 1))
+	}
 	for i := range phases {
-		if len(phases[i].Objects) == 0 || g.R.Intn(3) == 0 {
+		if phases[i].Class != "" {
+			continue // delegated phases carry their objects in the ObjectSetPhase
+		}
+		if len(phases[i].Objects) == 0 || g.sliceR.Intn(3) == 0 {
 			continue
 		}
 		keep := 0
-		if g.R.Intn(2) == 0 {
+		if g.sliceR.Intn(2) == 0 {
 			keep = 1 // one object stays inline, the rest goes to the slice
 		}
 		if len(phases[i].Objects) <= keep {
